@@ -104,7 +104,7 @@ func warmHistory() {
 		expr.Parse("T{a=}")
 		log.VerifReset(keepBuiltinTags, keepAllHandles)
 		log.Stdout = &bytes.Buffer{}
-		for _, fast := range []string{"false", "true"} {
+		for _, fast := range []string{"true", "false"} { // ends with the defaults (enableCaller on, fast lookup off) set through the public properties
 			// (one appender with every layout attribute configured away from its default)
 			if err := log.Refresh(map[string]string{"appender.hw.type": "Rec", "logger.root.type": "Logger", "logger.root.appenderRef.ref": "hw",
 				"appender.hc.type": "Console", "appender.hc.layout.type": "TextLayout", "appender.hc.layout.fileLineLength": "10",
